@@ -83,6 +83,8 @@ def chain(args):
         keep_note = old.get("note", "")
         if res.get("caught") and "NOT YET CAUGHT" in keep_note:
             keep_note = "first missed; caught after the check was extended"
+        if keep_note.startswith("RETIRED"):   # a retired change stays retired (its note says why); what this run saw is kept beside it
+            res["note"], res["caught"] = keep_note, False
         res.setdefault("note", keep_note)
         meta["verified_by_me"] = res
         json.dump(meta, open(mp, "w"), indent=1, ensure_ascii=False)
